@@ -1,4 +1,5 @@
 import PyaModel.Proofs.C01
+import PyaModel.Proofs.C01Composite
 /-!
 # Props/C01 — inferred values are sound with respect to execution (stages S1, S2a, S1b, S1c, S3a: the MiniPy fragment)
 
@@ -277,5 +278,49 @@ theorem exProg_args_ok : argsOk exProg.params [.none, .tuple [.int 3, .str "b"]]
 example : (exec (fun _ _ => none) exProg [.none, .tuple [.int 3, .str "b"]]).2.length = 12 := by decide +kernel
 example (impl : Impl) : InferSound impl exProg :=
   infer_sound_partial impl exProg (fun f os r _ => by simp [exProg, mem]) (by decide +kernel)
+
+
+/-! ## Composite variables: assigning to a prefix forgets every composite below it
+
+`Core/Composite.lean` models the bookkeeping of `x[k1][k2]` / `x.a.b` in `FunctionScope` (`_add_composite`, `set`). The
+bounds of the loop in `_add_composite` are regenerated from the live source on every run
+(`Generated/CompositeBounds.lean`); the theorems below are stated about the regenerated bounds, so a change of the loop
+breaks `composite_bounds_ok` (and with it the build) before any program is run. -/
+
+/-- the loop is `for i in range(1, len(varname.attributes))` -/
+theorem composite_bounds_ok : addCompositeLo = 1 ∧ addCompositeHiOff = 0 := by decide
+
+/-- **Every proper prefix is recorded.** A composite of any depth is recorded under each of its proper prefixes — the
+root, the parent, the grand-parent, … (full strength, all paths). -/
+theorem composite_recorded_under_every_prefix (c p : CPath) (h : properPrefix p c = true) :
+    p ∈ recordedUnder addCompositeLo addCompositeHiOff c := by
+  rw [composite_bounds_ok.1, composite_bounds_ok.2]
+  exact recorded_under_proper_prefix c p h
+
+/-- **Invalidation invariant** (full strength): in a state in which every live composite is recorded as
+`_add_composite` records it, `FunctionScope.set` on `p` leaves no live composite that has `p` as a proper prefix, at
+every depth. Well-formedness holds initially and is preserved by narrowing / stores (`touch`) and by assignments. -/
+theorem composite_assign_invalidates (st : CompState) (p c : CPath)
+    (h : st.wf addCompositeLo addCompositeHiOff) (hp : properPrefix p c = true) :
+    c ∉ (st.assign addCompositeLo addCompositeHiOff p).live := by
+  rw [composite_bounds_ok.1, composite_bounds_ok.2] at h ⊢
+  exact assign_invalidates st p c h hp
+
+theorem composite_wf_preserved (st : CompState) (c : CPath) (h : st.wf addCompositeLo addCompositeHiOff) :
+    (st.touch addCompositeLo addCompositeHiOff c).wf addCompositeLo addCompositeHiOff ∧
+    (st.assign addCompositeLo addCompositeHiOff c).wf addCompositeLo addCompositeHiOff :=
+  ⟨wf_touch _ _ st c h, wf_assign _ _ st c h⟩
+
+/-- the loop bound matters: with `range(1, len - 1)` the immediate parent is not a recorded prefix, and an assignment to
+`x[0]` leaves the narrowing of `x[0][1]` alive -/
+theorem composite_bound_witness :
+    [0] ∉ recordedUnder 1 1 [0, 1] ∧
+    [0, 1] ∈ (((⟨[], []⟩ : CompState).touch 1 1 [0, 1]).assign 1 1 [0]).live := by decide
+
+example : ((⟨[], []⟩ : CompState).touch addCompositeLo addCompositeHiOff [0, 1]).wf addCompositeLo addCompositeHiOff :=
+  wf_touch _ _ _ _ (wf_empty _ _)
+example : [0, 1] ∉ (((⟨[], []⟩ : CompState).touch addCompositeLo addCompositeHiOff [0, 1]).assign
+    addCompositeLo addCompositeHiOff [0]).live :=
+  composite_assign_invalidates _ [0] [0, 1] (wf_touch _ _ _ _ (wf_empty _ _)) (by decide)
 
 end Pya.C01
